@@ -41,7 +41,10 @@ def setup():
     t = os.path.join(WORK, 'warm.rs')
     open(t, 'w').write('use vstd::prelude::*;\nverus!{ fn f(x: u8) -> (r: u8) ensures r == x { x } }\nfn main(){}\n')
     subprocess.run(['verus', t], capture_output=True, cwd=WORK)
-    from vx import kani_engine
+    try:
+        from vx import kani_engine
+    except ImportError:
+        return 0
     return kani_engine.setup()
 
 
